@@ -29,20 +29,22 @@ def _schema_class(ctx: Ctx, name: str) -> ClassInfo:
 
 
 def _generator_roles(ctx: Ctx, gen: FuncUnit) -> Dict[str, str]:
-    """fid -> 'nodes' | 'edges' | 'node_types': the methods of the config class that iterate the DAG and construct (directly or
-    through helpers) the schema entries of that kind."""
+    """fid -> 'nodes' | 'edges' | 'node_types': the methods of the config class that `generate` calls and that construct
+    (directly or through helpers) the schema entries of that kind."""
     ci = _config_class(ctx)
     cls = {k: _schema_class(ctx, k) for k in ('Node', 'Edge', 'NodeType')}
     roles: Dict[str, str] = {}
-    for m in ci.methods.values():
-        if m is gen:
-            continue
-        src = unparse(m.node)
-        if 'graph.nodes' not in src and 'graph.edges' not in src:
-            continue
+    env = FuncEnv.of(ctx.p, gen)
+    called = []
+    for c in env.own_nodes():
+        if isinstance(c, ast.Call):
+            for t in env.resolve_call(c):
+                if t[0] == 'func' and t[1].cls is ci and t[1] is not gen and t[1] not in called:
+                    called.append(t[1])
+    for m in called:
         g = ctx.graph(m.fid, depth=4)
         made = {k for k, c in cls.items() if _ctor_events(g, c)}
-        if 'Edge' in made and 'graph.edges' in src:
+        if 'Edge' in made:
             roles[m.fid] = 'edges'
         elif 'Node' in made:
             roles[m.fid] = 'nodes'
@@ -58,145 +60,81 @@ def _ctor_events(g: Graph, ci: ClassInfo) -> List[Ev]:
 
 
 def rule_nodes_and_edges(ctx: Ctx, out: Collector) -> None:
-    """VW-1: exactly one node entry per DAG node on every path.  VW-2: one edge entry per DAG edge, no filter."""
-    from ..engine import follow_values
+    """VW-1: exactly one node entry per DAG node; synthetic nodes are virtual and typed by the prefix of their id, real nodes are
+    described by the attributes of the DAG's own node object.  VW-2: one edge entry per DAG edge, no filter.  Both decided by
+    interpreting the generators over a small DAG (library-typed, string-typed, enum-typed, untyped nodes and a synthetic one)."""
+    from ..absint import AObj, Interp, Oracle, TOP, enumerate_outcomes
     p = ctx.p
     ci = _config_class(ctx)
-    node_cls = _schema_class(ctx, 'Node')
-    attrs_cls = _schema_class(ctx, 'NodeAttributes')
-    gen_nodes = None
-    gen_edges = None
-    g = None
-    for m in ci.methods.values():
-        src = unparse(m.node)
-        if 'graph.nodes' in src and any(isinstance(n, ast.Return) and n.value is not None for n in ast.walk(m.node)):
-            gm = ctx.graph(m.fid, depth=4)
-            if _ctor_events(gm, node_cls) and gen_nodes is None:
-                gen_nodes, g = m, gm
-        if 'graph.edges' in src and ('schema.Edge(' in src or 'Edge(' in src):
-            gen_edges = m
-    if gen_nodes is None or gen_edges is None:
-        raise AnalysisError('node / edge generators of the viewer not found (VW-1/2 anchors vanished)')
-    loops = [lp for lp in g.events('loop') if lp.inst.parent is None and unparse(lp.info['iter']).endswith('graph.nodes')]
-    cons = f'{gen_nodes.module.name}::{gen_nodes.qualname}::one entry per node of graph.nodes'
-    entries: List[Tuple[ast.AST, object]] = []      # (entry expression, activation)
-    K = None
-    if len(loops) != 1:
-        out.bad('VW-1', cons, p.loc(gen_nodes, gen_nodes.node), f'{len(loops)} loops over graph.nodes (expected exactly one, unfiltered)')
-    else:
-        lp = loops[0]
-        K = ('elem', sym.term(p, lp.info['iter'], lp.inst))
-        region = loop_region(g, lp)
-        comp = lp.info.get('comp')
-        if comp is not None:
-            adds = {m for m in region if g.evs[m].kind == 'yieldelt' and g.evs[m].info.get('comp') is comp}
-            for m in adds:
-                entries.append((getattr(comp, 'elt', None), g.evs[m].inst))
-        else:
-            adds = {m for m in region if g.evs[m].kind == 'call' and isinstance(g.evs[m].node.func, ast.Attribute)
-                    and g.evs[m].node.func.attr == 'append' and g.evs[m].inst.parent is None}
-            for m in adds:
-                c = g.evs[m].node
-                if c.args:
-                    entries.append((c.args[0], g.evs[m].inst))
-        tsucc = [m for m, lab in g.succ[lp.id] if lab == 'T']
-        problems = []
-        if not adds:
-            problems.append('no entry is added in the loop')
-        elif find_path(g, tsucc[0], {lp.id}, avoid=adds, labels=NORMAL_LABELS) is not None and tsucc[0] not in adds:
-            problems.append('an iteration can add no entry')
-        for a in adds:
-            nxt = reach(g, [a], stop={lp.id}, labels=NORMAL_LABELS)
-            if nxt & (adds - {a}):
-                problems.append('an iteration can add two entries')
-        leaves = [g.evs[m] for m in region if g.evs[m].kind in ('break', 'return', 'continue') and g.evs[m].inst.parent is None]
-        if leaves:
-            problems.append(f'the loop is left / skipped early ({leaves[0].kind})')
-        if comp is not None:
-            # the comprehension itself must be what the generator returns
-            rets = [n for n in FuncEnv.of(p, gen_nodes).own_nodes() if isinstance(n, ast.Return) and n.value is not None]
-            vals = [e for r in rets for e, i in follow_values(p, r.value, g.root_inst)]
-            if not any(v is comp or (isinstance(v, ast.Call) and v.args and v.args[0] is comp and unparse(v.func) in ('list', 'tuple'))
-                       for v in vals):
-                problems.append('the list built over graph.nodes is not what the generator returns')
-        if not problems:
-            out.ok('VW-1', cons, lp.where(), f'{len(adds)} entry site(s), exactly one on every path of an iteration')
-        else:
-            out.bad('VW-1', cons, lp.where(), 'the node list of the graph description is not one entry per DAG node: ' + '; '.join(sorted(set(problems))))
-    # ---- the entries: schema.Node objects keyed by the DAG node id; virtual / real classification
-    ctors: List[Tuple[ast.Call, object]] = []
-    stray = []
-    for expr, inst in entries:
-        if expr is None:
-            continue
-        for e, i in follow_values(p, expr, inst):
-            if isinstance(e, ast.Call) and any(t[0] == 'class' and t[1] is node_cls for t in FuncEnv.of(p, i.unit).resolve_call(e)):
-                ctors.append((e, i))
-            else:
-                stray.append(unparse(e)[:50])
-    cons = f'{gen_nodes.module.name}::{gen_nodes.qualname}::synthetic nodes are virtual and typed by prefix, real nodes carry declared data'
-    problems = []
-    if stray:
-        problems.append(f'an entry is not a schema.Node ({stray[0]})')
-    virt = real = 0
-    real_ctors = []
-    for c, i in ctors:
-        kws = {k.arg: sym.term(p, k.value, i) for k in c.keywords if k.arg is not None}
-        if K is not None and kws.get('id') != K:
-            problems.append(f'an entry does not carry the DAG node id (id={sym.show(kws.get("id"))})')
-        if 'data' in kws:
-            real += 1
-            real_ctors.append((c, i, kws))
-            if kws.get('is_virtual') != ('const', False):
-                problems.append('a described node is marked virtual')
-        else:
-            virt += 1
-            if kws.get('is_virtual') != ('const', True):
-                problems.append('a synthetic node is not marked virtual')
-            ty = kws.get('type')
-            if not (ty is not None and 'by_prefix' in sym.show(ty) and K is not None and sym.mentions(ty, lambda s_: s_ == K)):
-                problems.append(f'a synthetic node is not typed by the prefix of its id (type={sym.show(ty)})')
-    if ctors and (virt == 0 or real == 0):
-        problems.append('node entries do not distinguish synthetic from real nodes')
-    if not ctors:
-        problems.append('no schema.Node entry found')
-    if not problems:
-        out.ok('VW-1', cons, p.loc(gen_nodes, gen_nodes.node), 'virtual: NodeType.by_prefix(id); real: node_type, name, verbose_name, doc')
-    else:
-        out.bad('VW-1', cons, p.loc(gen_nodes, gen_nodes.node), 'node entries do not distinguish synthetic (virtual, typed by id prefix) from '
-                                                                'real nodes (declared name, type, documentation): ' + '; '.join(sorted(set(problems))[:3]))
-    # ---- real nodes are described by the attributes of the DAG's own node object
-    cons = f'{gen_nodes.module.name}::{gen_nodes.qualname}::real node entries carry the attributes of the DAG node itself'
-    if not real_ctors:
-        raise AnalysisError('no described (real) node entry in the node generator (VW-1 anchor vanished)')
-    problems = []
+    gen = ci.methods.get('generate')
+    if gen is None:
+        raise AnalysisError('GraphConfigImpl.generate not found (VW-1 anchor vanished)')
+    roles = {role: p.functions[fid] for fid, role in _generator_roles(ctx, gen).items()}
+    gen_nodes, gen_edges = roles['nodes'], roles['edges']
+    nt = next((c for c in p.classes_by_name.get('NodeType', []) if c.module.name.endswith('node.enums')), None)
+    if nt is None:
+        raise AnalysisError('NodeType enum not found (VW-1 anchor vanished)')
+    node_map, graph_nodes, switch_member = _viewer_world(nt)
 
-    def is_dag_node(t) -> bool:
-        """t is the DAG's own node object of this id: a look-up in node_map keyed by the loop element"""
-        return isinstance(t, tuple) and 'node_map' in sym.show(t) and K is not None and sym.mentions(t, lambda s_: s_ == K) \
-            and t[0] == 'call'
-    for c, i, kws in real_ctors:
-        ty = kws.get('type')
-        if not (isinstance(ty, tuple) and ty[0] == 'attr' and ty[2] == 'node_type' and is_dag_node(ty[1])):
-            problems.append(f'type={sym.show(ty)}')
-        dexpr = next(k.value for k in c.keywords if k.arg == 'data')
-        found_attrs = False
-        for e, ii in follow_values(p, dexpr, i):
-            if isinstance(e, ast.Call) and any(t[0] == 'class' and t[1] is attrs_cls for t in FuncEnv.of(p, ii.unit).resolve_call(e)):
-                found_attrs = True
-                akws = {k.arg: sym.term(p, k.value, ii) for k in e.keywords if k.arg is not None}
-                for fld in ('name', 'verbose_name'):
-                    v = akws.get(fld)
-                    if not (isinstance(v, tuple) and v[0] == 'attr' and v[2] == fld and is_dag_node(v[1])):
-                        problems.append(f'{fld}={sym.show(v)}')
-        if not found_attrs:
-            problems.append('no NodeAttributes entry')
-    if not problems:
-        out.ok('VW-1', cons, p.loc(gen_nodes, gen_nodes.node), 'name, verbose_name, type read from the node_map entry of the node id')
+    def run_nodes(oracle: Oracle):
+        interp = Interp(p, oracle, stubs=_viewer_stubs(ctx, nt, ci, switch_member), ext_stubs={'inspect.getdoc': lambda a, k: 'doc'})
+        graph = AObj(('ext', 'networkx.DiGraph'), {'nodes': {n: {} for n in graph_nodes}, 'edges': {}})
+        dag = AObj(('ext', 'DAG'), {'graph': graph, 'node_map': dict(node_map)})
+        res = interp.call_unit(gen_nodes, [], {}, AObj(ci, {'_dag': dag}))
+        return interp._to_list(res)
+
+    def val(x):
+        return x.attrs.get('value') if isinstance(x, AObj) and 'value' in x.attrs else x
+    count_p, kind_p, attr_p = [], [], []
+    for o in enumerate_outcomes(run_nodes):
+        if o[0] != 'value':
+            count_p.append(f'the node generator fails: {str(o[1])[:60]}')
+            continue
+        entries = [e for e in o[1] if isinstance(e, AObj)]
+        ids = [e.attrs.get('id') for e in entries]
+        if len(entries) != len(o[1]):
+            count_p.append('an entry is not a schema.Node')
+        if sorted(map(str, ids)) != sorted(graph_nodes):
+            count_p.append(f'entries {sorted(map(str, ids))} for the DAG nodes {sorted(graph_nodes)}')
+        for e in entries:
+            nid = e.attrs.get('id')
+            if nid not in node_map:
+                if e.attrs.get('is_virtual') is not True:
+                    kind_p.append(f'the synthetic node {nid} is not marked virtual')
+                if val(e.attrs.get('type')) != 'switch':
+                    kind_p.append(f'the synthetic node {nid} is typed {val(e.attrs.get("type"))!r}, not by the prefix of its id')
+                continue
+            cls_ = node_map[nid]
+            if e.attrs.get('is_virtual') is not False:
+                kind_p.append(f'the described node {nid} is marked virtual')
+            t_, want = e.attrs.get('type'), cls_.attrs['node_type']
+            if not (t_ is want or (val(t_) == val(want) and val(t_) is not None) or (want is None and t_ is None)):
+                attr_p.append(f'{nid}: type={val(t_)!r} (declared {val(want)!r})')
+            data = e.attrs.get('data')
+            dattrs = data.attrs if isinstance(data, AObj) else {}
+            for fld in ('name', 'verbose_name'):
+                if dattrs.get(fld) != cls_.attrs[fld]:
+                    attr_p.append(f'{nid}: {fld}={dattrs.get(fld)!r} (declared {cls_.attrs[fld]!r})')
+            if not isinstance(data, AObj):
+                attr_p.append(f'{nid}: no NodeAttributes entry')
+    where = p.loc(gen_nodes, gen_nodes.node)
+    cons = f'{gen_nodes.module.name}::{gen_nodes.qualname}::one entry per node of graph.nodes'
+    if not count_p:
+        out.ok('VW-1', cons, where, f'{len(graph_nodes)} DAG nodes in, one entry each out')
     else:
-        out.bad('VW-1', cons, p.loc(gen_nodes, gen_nodes.node), f'a real node is not described by its own declared attributes '
-                                                                f'({", ".join(sorted(set(problems)))} instead of <node_map[id]>.<attr>): nodes built '
-                                                                f'from a generic class with their own name are shown with the template\'s name')
+        out.bad('VW-1', cons, where, 'the node list of the graph description is not one entry per DAG node: ' + '; '.join(sorted(set(count_p))[:3]))
+    cons = f'{gen_nodes.module.name}::{gen_nodes.qualname}::synthetic nodes are virtual and typed by prefix, real nodes carry declared data'
+    if not kind_p:
+        out.ok('VW-1', cons, where, 'virtual: NodeType.by_prefix(id); real: not virtual')
+    else:
+        out.bad('VW-1', cons, where, 'node entries do not distinguish synthetic (virtual, typed by id prefix) from real nodes: '
+                + '; '.join(sorted(set(kind_p))[:3]))
+    cons = f'{gen_nodes.module.name}::{gen_nodes.qualname}::real node entries carry the attributes of the DAG node itself'
+    if not attr_p:
+        out.ok('VW-1', cons, where, 'name, verbose_name, type equal those of the node_map entry of the node id')
+    else:
+        out.bad('VW-1', cons, where, 'a real node is not described by its own declared attributes (' + '; '.join(sorted(set(attr_p))[:3])
+                + '): nodes built from a generic class with their own name are shown with the template\'s name')
     # ---- VW-2: the edge generator is interpreted over a small graph
     cons = f'{gen_edges.module.name}::{gen_edges.qualname}::one entry per edge of graph.edges, unfiltered'
     from ..absint import AObj, Interp, Oracle, TOP, enumerate_outcomes
@@ -464,6 +402,43 @@ def _partial_enum_conversions(ci: ClassInfo) -> List[Tuple[FuncUnit, ast.Call]]:
     return out
 
 
+def _pure_path_model(ext: dict) -> None:
+    """pathlib pure paths over strings: objects (not strings) with the string-producing methods - enough to tell a path object from
+    the text of a path in what a function returns."""
+    from ..absint import AExt, AObj
+    counter = {'n': 0}
+
+    def mk(s_: str):
+        o = AObj(('ext', 'pathlib.PurePosixPath'), {'s': s_, 'name': s_.rsplit('/', 1)[-1]}, tag=f'PurePosixPath({s_})')
+
+        def method(fn):
+            counter['n'] += 1
+            name = f'purepath.m{counter["n"]}'
+            ext[name] = fn
+            return AExt(name)
+        stem = s_[:-len('.' + s_.rsplit('.', 1)[-1])] if '.' in s_.rsplit('/', 1)[-1] else s_
+        o.attrs['with_suffix'] = method(lambda a, k: mk(stem + (a[0] if a and isinstance(a[0], str) else '')))
+        o.attrs['with_name'] = method(lambda a, k: mk(s_.rsplit('/', 1)[0] + '/' + a[0] if '/' in s_ else a[0]))
+        o.attrs['joinpath'] = method(lambda a, k: mk('/'.join([s_] + [x if isinstance(x, str) else x.attrs['s'] for x in a])))
+        o.attrs['as_posix'] = method(lambda a, k: s_)
+        o.attrs['__str__'] = method(lambda a, k: s_)
+        o.attrs['__fspath__'] = method(lambda a, k: s_)
+        return o
+
+    def ctor(a, k):
+        parts = [x if isinstance(x, str) else (x.attrs.get('s') if isinstance(x, AObj) else None) for x in a]
+        if any(x is None for x in parts):
+            from ..absint import TOP
+            return TOP
+        return mk('/'.join(parts))
+    for nm in ('pathlib.PurePosixPath', 'pathlib.PurePath', 'pathlib.Path', 'pathlib.PosixPath', 'pathlib.PureWindowsPath'):
+        ext[nm] = ctor
+    ext['operator.truediv'] = lambda a, k: ctor(a, k)
+    ext['builtins.str'] = lambda a, k: (a[0].attrs['s'] if a and isinstance(a[0], AObj) and 's' in a[0].attrs else
+                                        (str(a[0]) if a and isinstance(a[0], (str, int)) and not isinstance(a[0], bool) else __import__('sa.absint', fromlist=['TOP']).TOP))
+    ext['os.fspath'] = ext['builtins.str']
+
+
 def rule_source_and_ids(ctx: Ctx, out: Collector) -> None:
     """VW-7: the source link of a node built by build_node from another build_node node is computed from the class that has a
     source (the chain of __generic_class__ is followed to its end).  VW-8: the edge id is an injective function of the pair
@@ -493,9 +468,13 @@ def rule_source_and_ids(ctx: Ctx, out: Collector) -> None:
             for i in range(depth):
                 node = AObj(('ext', 'created-class'), {'__module__': 'ml_pipeline_engine.node.node', '__name__': f'G{i}',
                                                        '__generic_class__': node}, tag=f'G{i}')
-            interp = Interp(p, oracle, ext_stubs={'inspect.getsourcelines': src, 'inspect.findsource': src,
-                                                  'inspect.getsourcefile': lambda a, k: (asked.append(a[0]), 'user/base.py')[1]})
+            ext_ = {'inspect.getsourcelines': src, 'inspect.findsource': src,
+                    'inspect.getsourcefile': lambda a, k: (asked.append(a[0]), 'user/base.py')[1]}
+            _pure_path_model(ext_)
+            interp = Interp(p, oracle, ext_stubs=ext_)
             res = interp.call_unit(target, [node], {}, None if target.is_static else AObj(ci, {}))
+            if not (isinstance(res, str) or res is TOP):
+                raise ARaise(f'TypeError (the source link is {res!r}, not a string: the description does not serialise to JSON)')
             return res, [getattr(a, 'tag', repr(a)) for a in asked]
         outs = enumerate_outcomes(run)
         got = sorted({(str(o[1][0]), tuple(o[1][1])) if o[0] == 'value' else ('raises ' + str(o[1]), ()) for o in outs})
@@ -518,9 +497,13 @@ def rule_source_and_ids(ctx: Ctx, out: Collector) -> None:
                                                   '__made_by_type__': True}, tag='G')
         own = AObj(('ext', 'created-class'), {'__module__': 'user.own', '__name__': 'Own', '__bases__': (generic,)}, tag='Own')
         node = own if which == 'subclass' else base
-        interp = Interp(p, oracle, ext_stubs={'inspect.getsourcelines': src, 'inspect.findsource': src,
-                                              'inspect.getsourcefile': lambda a, k: (asked.append(a[0]), 'x.py')[1]})
+        ext_ = {'inspect.getsourcelines': src, 'inspect.findsource': src,
+                'inspect.getsourcefile': lambda a, k: (asked.append(a[0]), 'x.py')[1]}
+        _pure_path_model(ext_)
+        interp = Interp(p, oracle, ext_stubs=ext_)
         res = interp.call_unit(target, [node], {}, None if target.is_static else AObj(ci, {}))
+        if not (isinstance(res, str) or res is TOP):
+            raise ARaise(f'TypeError (the source link is {res!r}, not a string: the description does not serialise to JSON)')
         return res, [getattr(a, 'tag', repr(a)) for a in asked]
     for which, label in (('subclass', 'a hand-written subclass of a build_node class'), ('no-source', 'a class without retrievable source')):
         outs = enumerate_outcomes(lambda oracle, which=which: run_special(oracle, which))
